@@ -30,6 +30,9 @@ class Module(object):
         self.relpath = relpath
         self.source = source
         self.tree = ast.parse(source, filename=path)
+        self.annotate()
+
+    def annotate(self):
         for node in ast.walk(self.tree):
             for child in ast.iter_child_nodes(node):
                 child._parent = node
@@ -58,6 +61,10 @@ class Repo(object):
                 except SyntaxError as e:
                     raise AnalysisError('%s does not parse: %s' % (path, e))
         self._func_cache = {}
+        self.equivalence = None
+        if not os.environ.get('PYX_NO_EQUIV'):
+            from . import equiv
+            self.equivalence = equiv.apply(self)
 
     # -- digests -----------------------------------------------------------
     def digest(self, names=None):
